@@ -59,6 +59,8 @@ struct Run {
     failures: u64,
     size: usize,
     place: &'static str,
+    /// long-history runs: only the last steps are quoted in messages
+    long: bool,
 }
 
 fn tags_for(op: &SymOp, data_only: bool, http: bool) -> Vec<&'static str> {
@@ -90,14 +92,22 @@ fn tags_for(op: &SymOp, data_only: bool, http: bool) -> Vec<&'static str> {
 
 impl Run {
     fn find(&mut self, tags: Vec<&'static str>, class: &str, msg: String) {
-        let hist = self.steps.join(" ; ");
+        if self.long && self.findings.len() >= 12 {
+            return; // one long history: the first few findings tell the story
+        }
+        let (hist, what) = if self.long {
+            let k = self.steps.len().saturating_sub(8);
+            (format!("… {} earlier requests … ; {}", k, self.steps[k..].join(" ; ")), format!("history of {} versions", self.size))
+        } else {
+            (self.steps.join(" ; "), format!("payload of {} bytes as {}", self.size, self.place))
+        };
         self.findings.push(json!({
             "tags": tags,
             "class": class,
             "impl": self.sut.name(),
             "size": self.size,
             "place": self.place,
-            "msg": format!("[{}] payload of {} bytes as {}: {}\n  history: {}", self.sut.name(), self.size, self.place, msg, hist),
+            "msg": format!("[{}] {}: {}\n  history: {}", self.sut.name(), what, msg, hist),
         }));
     }
 
@@ -159,6 +169,15 @@ impl Run {
             // an upload the model accepted but the implementation refused was not stored
             if let (Some((c, existed)), false) = (undo, matches!(got, SResp::AvOk { .. })) {
                 self.model.undo_last_version(c, existed);
+            }
+            let urgency_only = matches!((&expect, &got), (MResp::AvOk { id, .. }, SResp::AvOk { id: i, fresh: true, .. }) if id == i);
+            if urgency_only {
+                let mut tags = vec!["C12", "C13"];
+                if self.http {
+                    tags.push("C14");
+                }
+                self.find(tags, "add-version|urgency", format!("{}: {}", op.describe(), short(&e)));
+                return got;
             }
             let msg = if data_only { format!("{}: ids right, bytes differ ({})", op.describe(), short(&e)) } else { format!("{}: {}", op.describe(), short(&e)) };
             self.find(tags_for(&op, data_only, self.http), &format!("{}|{}", op_kind(&op), if data_only { "bytes" } else { "answer" }), msg);
@@ -238,6 +257,7 @@ pub fn run_one(spec_name: &str, size: usize, place_ix: usize, seed: u64) -> Valu
         failures: 0,
         size,
         place,
+        long: false,
     };
     let a: Cid = 0;
     let b: Cid = 1;
@@ -297,10 +317,107 @@ pub fn run_one(spec_name: &str, size: usize, place_ix: usize, seed: u64) -> Valu
     json!({"findings": r.findings, "steps": r.n_steps, "failures": r.failures})
 }
 
+/// E-LONG: one long history per implementation - counts, not sizes. `n` versions of client A
+/// under the default snapshot targets (14 days, 100 versions), snapshots at a few points so
+/// that the versions-since counter crosses its low and high thresholds more than once, a second
+/// client syncing now and then, six bystanders that must come out untouched, reads, conflicts
+/// and declined snapshots at every power of two and around 100 / 150 / 255 / 1000, full walks
+/// and store comparisons at 256 and at the end (and after a reopen).
+pub fn run_long(spec_name: &str, n: usize, seed: u64) -> Value {
+    let spec = spec_from_name(spec_name).expect("spec");
+    let cfg = Config { days: 14, versions: 100 };
+    let mut r = Run {
+        sut: SymSut::new(spec, cfg, seed, 8),
+        model: Model::new(cfg),
+        http: spec.is_http(),
+        findings: vec![],
+        steps: vec![],
+        n_steps: 0,
+        failures: 0,
+        size: n,
+        place: "long-history",
+        long: true,
+    };
+    let a: Cid = 0;
+    let b: Cid = 1;
+    let latest = |r: &Run, c: Cid| r.model.client(c).map(|cl| cl.latest()).unwrap_or(NIL);
+    for c in 2..8u8 {
+        r.step(SymOp::AddVersion { c, parent: NIL, data: format!("bystander-{c}").into_bytes() });
+        let l = latest(&r, c);
+        r.step(SymOp::AddSnapshot { c, v: l, data: format!("bystander-snap-{c}").into_bytes() });
+    }
+    let snap_at = [3usize, 160, 420, 1030, 2500, 4100];
+    let is_check = |i: usize| i.is_power_of_two() || (i + 1).is_power_of_two() || [99, 100, 101, 149, 150, 151, 254, 257, 999, 1000, 1001].contains(&i);
+    for i in 1..=n {
+        let l = latest(&r, a);
+        r.step(SymOp::AddVersion { c: a, parent: l, data: format!("version-{i}").into_bytes() });
+        if i % 97 == 0 {
+            let lb = latest(&r, b);
+            r.step(SymOp::AddVersion { c: b, parent: lb, data: format!("other-{i}").into_bytes() });
+            if i % 194 == 0 {
+                let lb = latest(&r, b);
+                r.step(SymOp::AddSnapshot { c: b, v: lb, data: format!("other-snap-{i}").into_bytes() });
+            }
+        }
+        if snap_at.contains(&i) {
+            let l = latest(&r, a);
+            r.step(SymOp::AddSnapshot { c: a, v: l, data: format!("snapshot-{i}").into_bytes() });
+            r.step(SymOp::GetSnapshot { c: a });
+        }
+        if is_check(i) {
+            let l = latest(&r, a);
+            r.step(SymOp::GetChild { c: a, parent: l });
+            let (mid, first) = {
+                let ch = &r.model.client(a).unwrap().chain;
+                (ch[ch.len() / 2].parent, ch[0].id)
+            };
+            r.step(SymOp::GetChild { c: a, parent: mid });
+            // a replica that is behind: conflict naming the latest, nothing changes
+            r.step(SymOp::AddVersion { c: a, parent: first, data: b"stale".to_vec() });
+            // a snapshot for a version far behind the current one: declined
+            if i > 12 {
+                r.step(SymOp::AddSnapshot { c: a, v: first, data: b"too-old".to_vec() });
+            }
+            r.step(SymOp::GetSnapshot { c: a });
+        }
+        if i == 256 || i == n {
+            r.walk(a, "same server");
+            r.walk(b, "same server, second client");
+            r.compare_store("same server");
+            if spec.is_sql() {
+                match r.sut.sut.reopen() {
+                    Ok(()) => {
+                        r.steps.push("Reopen".into());
+                        r.walk(a, "after reopening the database");
+                        r.step(SymOp::GetSnapshot { c: a });
+                        r.compare_store("after reopening the database");
+                    }
+                    Err(e) => r.find(vec!["C13"], "reopen", format!("reopening the database failed: {e}")),
+                }
+            }
+        }
+        if r.findings.len() >= 12 {
+            break;
+        }
+    }
+    for c in 2..8u8 {
+        let before = r.findings.len();
+        r.walk(c, "bystander at the end");
+        r.step(SymOp::GetSnapshot { c });
+        if r.findings.len() > before {
+            r.find(vec!["C09"], "bystander", format!("bystander client {} does not read back what it stored before the long history of client A", (b'A' + c) as char));
+        }
+    }
+    json!({"findings": r.findings, "steps": r.n_steps, "failures": r.failures})
+}
+
 pub fn worker_main() {
     crate::pool::serve(|pv| {
         let seed = pv["seed"].as_u64().unwrap_or(1);
         move |task: &Value| -> Value {
+            if let Some(n) = task["long"].as_u64() {
+                return run_long(task["spec"].as_str().unwrap_or(""), n as usize, seed);
+            }
             run_one(task["spec"].as_str().unwrap_or(""), task["size"].as_u64().unwrap_or(1) as usize, task["place"].as_u64().unwrap_or(0) as usize, seed)
         }
     });
